@@ -118,6 +118,10 @@ func c03Handwritten() []c03Hand {
 		// DDL as people type it: SQLite stores the statement verbatim, keywords in any letter case
 		{ddl: []string{"create table lc (id integer primary key autoincrement, name text not null default 'x', n integer check (n > 0), unique (name))"}},
 		{ddl: []string{"Create Table Mc (Id Integer Primary Key AutoIncrement, Name Text Not Null Default 'x' Collate Nocase, G Integer Generated Always As (Id * 2) Stored) Strict"}},
+		// numeric defaults beyond 64 bits, in exponent form, negative, at the integer limits; partial indexes whose
+		// predicate is written without parentheses
+		{ddl: []string{"CREATE TABLE `n` (`id` integer NOT NULL, `a` real NULL DEFAULT 1e20, `b` numeric NULL DEFAULT 2.5e25, `c` real NULL DEFAULT -1e300, `d` integer NULL DEFAULT 9223372036854775807, `e` integer NULL DEFAULT -9223372036854775808, `f` real NULL DEFAULT 18446744073709551616, `g` real NULL DEFAULT 0.000001, PRIMARY KEY (`id`))"}},
+		{ddl: []string{"CREATE TABLE `pi` (`id` integer NOT NULL, `deleted_at` text NULL, `n` integer NULL, PRIMARY KEY (`id`))", "CREATE INDEX `pi_live` ON `pi` (`n`) WHERE deleted_at IS NULL", "CREATE INDEX `pi_pos` ON `pi` (`id`) WHERE n > 0 AND deleted_at IS NULL", "CREATE INDEX `pi_par` ON `pi` (`n`, `id`) WHERE (n < 0)"}},
 		{ddl: []string{"create table p (id integer primary key)", "create table wr (a integer not null, b text not null, p integer references p (id) on delete cascade, primary key (a, b)) without rowid", "create unique index wr_b on wr (b desc) where b <> ''"}},
 	}
 }
